@@ -1206,6 +1206,21 @@ struct StmW {
                 break;
             }
             case T_ASSIGN_VIEW: {
+                if ((op.a[4] & 1) != 0 && !m.empty() && big == 0) {
+                    // a view into the stream's own storage (drop a prefix / keep a middle part): assignment clears and
+                    // writes, and the write copies downwards over itself
+                    size_t off = (size_t)((uint64_t)op.a[2] % m.size());
+                    size_t n   = 1 + (size_t)((uint64_t)op.a[3] % (m.size() - off));
+                    U32    sub = m.substr(off, n);
+                    qsim::probe("seq.stream.assign-own-interior");
+                    {
+                        LibCall lc;
+                        View    v{s.First() + off, (SizeT)n};
+                        s = v;
+                    }
+                    m = sub;
+                    break;
+                }
                 ArenaText<C> t(txt);
                 LibCall      lc;
                 View         v{(const C *)t.ptr, (SizeT)t.len};
